@@ -149,6 +149,8 @@ def main(chk):
     nsmall = 60 if quick else len(small)
     rs = env.rng('c10-trunc')
     small_sel = rs.sample(small, min(nsmall, len(small)))
+    # the module that contains every kind of construct is always enumerated prefix by prefix
+    small_sel += [x for x in small if x[0] == 'hostile:all-constructs' and x not in small_sel]
     tjobs = []
     exhaustive_files = []
     for c, p, b in small_sel:
@@ -201,6 +203,59 @@ def main(chk):
     chk.observe('files_with_every_prefix_enumerated', len(exhaustive_files), 'set')
     chk.exhaustive = False
     chk.sample({'kind': 'truncation', 'files_exhaustive_prefixes': exhaustive_files[:5], 'prefix_example': tjobs[0][3] if tjobs else None})
+
+    # ---- 2b. MemorySanitizer build of the translator (clang): reads of uninitialised memory, which ASan cannot see, on every valid
+    # input under two option sets and on a sample of the truncations
+    try:
+        msan = env.build_translator('msan', cc='clang', tag='msan')
+    except env.HarnessError as ex:
+        msan = None
+        chk.inconclusive('MemorySanitizer build of the translator failed: %s' % str(ex)[-300:])
+    if msan:
+        mjobs = []
+        for idx, (cls, path, b) in enumerate(inputs):
+            if len(b) > 1500000:
+                continue
+            for oi in (0, 1 + (idx % (len(OPTSETS) - 1))):
+                mjobs.append(('valid', idx, oi, None))
+        tsel = rs.sample(tjobs, min(len(tjobs), 1500 if quick else 20000))
+        for ti, tj in enumerate(tsel):
+            mjobs.append(('trunc', ti, ti % 4, tj))
+
+        def dom(job):
+            kind, idx, oi, tj = job
+            d = os.path.join(root, 'ms%s%d_%d' % (kind[0], idx, oi))
+            if kind == 'valid':
+                cls, path, b = inputs[idx]
+                r = run_one(msan, d, path, OPTSETS[oi], OUTPATHS[(idx + oi) % len(OUTPATHS)], other)
+            else:
+                c, p, b, k = tj
+                os.makedirs(d, exist_ok=True)
+                tp = os.path.join(d, 'trunc.wasm')
+                with open(tp, 'wb') as f:
+                    f.write(b[:k])
+                r = env.run([msan] + [[], ['-g'], ['-f', '1', '-t', '2'], ['-p', '-m']][oi] + [tp, 'out.c'], cwd=d, env=env.SAN_ENV, timeout=120)
+            shutil.rmtree(d, ignore_errors=True)
+            return job, r
+
+        for (kind, idx, oi, tj), r in env.pmap(dom, mjobs):
+            chk.ev()
+            chk.observe('msan_runs_' + kind)
+            reports = [x for x in san.parse(r.err) if x[0].startswith('msan')]
+            if kind == 'valid':
+                cls, path, b = inputs[idx]
+                chk.distinct(('msan', env.sha(b)[:12], oi))
+                what = 'input %s (%s) options %s' % (os.path.basename(path), cls, ' '.join(OPTSETS[oi]))
+                files = {'input.wasm': b, 'cmd.txt': 'w2c2(msan) %s input.wasm out.c' % ' '.join(OPTSETS[oi]), 'stderr': r.err[-6000:]}
+            else:
+                c, p, b, k = tj
+                chk.distinct(('msan', env.sha(b)[:12], k))
+                what = 'prefix of length %d of %s' % (k, os.path.basename(p))
+                files = {'input.wasm': b[:k], 'full.wasm': b, 'stderr': r.err[-6000:]}
+            if reports:
+                chk.violation('C10:' + reports[0][0], '%s: %s' % (what, reports[0][1]), files)
+            elif r.rc is not None and r.rc < 0:
+                chk.violation('C10:signal:%d:msan-build' % -r.rc, '%s: MemorySanitizer build killed by signal %d: %s' % (what, -r.rc, r.err[-300:]), files)
 
     # ---- 3. thorough: valgrind memcheck on a sample (uninitialised reads)
     if not quick:
